@@ -5,7 +5,8 @@ LEVEL = 'exploration'
 SHARDS = {'quick': 2, 'thorough': 16}
 BUDGET = {'quick': 60, 'thorough': 600}
 TECHNIQUE = 'runtime monitoring at the client boundary: decorated callable vs. a native def with the expected advertised parameter list, compared on signature and on every call shape with distinguishable argument values'
-RULE = ('functions from U({a,b,c},3) (quick: 200 seeded; thorough: all 1972) + 4-parameter samples, with defaults 10*i and '
+RULE = ("(also: functools.wraps copies the metadata of another decorated callable onto the decorated one; every call shape is repeated with None / 0 / '' passed by keyword) "
+        'functions from U({a,b,c},3) (quick: 200 seeded; thorough: all 1972) + 4-parameter samples, with defaults 10*i and '
         'annotations, as plain functions and as methods; every subset of positional-or-keyword names for kwoargs and posoargs, '
         'start=/end= at every name, autokwoargs with exception subsets, inadmissible selections (unknown, star, wrong kind, both '
         'kinds, positional-only after a regular parameter); each admissible decoration is compared with the native reference '
